@@ -18,10 +18,11 @@ THEOREMS = ["Pyro.C07.C07_roundtrip_partial", "Pyro.C07.C07_roundtrip_batch_part
             "Pyro.C07.C07_usable_after_batch", "Pyro.C07.C07_unknown_class",
             "Pyro.C07.C07_roundtrip_fails_nonexception", "Pyro.C07.C07_roundtrip_fails_comm", "Pyro.C07.C07_batch_stopiteration",
             "Pyro.C07.C07_gen_whitelist_resolves", "Pyro.C07.C07_gen_whitelist_covers", "Pyro.C07.C07_gen_special",
-            "Pyro.C07.C07_gen_flags_sane", "Pyro.C07.C07_gen_sendable", "Pyro.C07.C07_gen_server_shape",
-            "Pyro.C07.C07_gen_fallback_shape", "Pyro.C07.C07_gen_batch_fallback", "Pyro.C07.C07_gen_dict_shape",
-            "Pyro.C07.C07_gen_dispatch_shape", "Pyro.C07.C07_gen_client_shape", "Pyro.C07.C07_gen_accessor_shape",
-            "Pyro.C07.C07_gen_retry_shape", "Pyro.C07.C07_gen_retry_classes", "Pyro.C07.C07_retry_never_none",
+            "Pyro.C07.C07_gen_flags_sane", "Pyro.C07.C07_gen_sendable", "Pyro.C07.C07_gen_error_path",
+            "Pyro.C07.C07_gen_error_path_covers", "Pyro.C07.C07_gen_other_kinds", "Pyro.C07.C07_gen_fallback",
+            "Pyro.C07.C07_gen_batch", "Pyro.C07.C07_gen_batch_fallback", "Pyro.C07.C07_gen_client", "Pyro.C07.C07_gen_retry",
+            "Pyro.C07.C07_gen_retry_classes", "Pyro.C07.C07_gen_dict", "Pyro.C07.C07_gen_dispatch",
+            "Pyro.C07.C07_retry_never_none",
             "Pyro.C07.C07_retry_forwarded_once", "Pyro.C07.C07_roundtrip_retry", "Pyro.C07.C07_retry_bound_matters"]
 SUITES = ["single", "batch", "decode"]
 RULE = ("ALL exception classes of vars(builtins) and all PyroError subclasses of vars(Pyro5.errors) (enumerated, 77 on this "
@@ -46,6 +47,8 @@ ASSUMPTIONS = [
     "code behaves the same on every attempt",
 ]
 TRUSTED = ["props/c07_rig.py: the in-process Daemon/Proxy rig and the canonical text forms of values and exceptions",
+           "props/c07_probe.py: extraction-time behaviour probes of the real handleRequest / _pyroInvoke / BatchProxy / retry loop / "
+           "class_to_dict / dict_to_class over in-memory sockets (their tables are what the C07_gen_ obligations compare the model with)",
            "_pyroTraceback is compared only as 'a non-empty list of str' (traceback formatting is not modelled)"]
 
 FALLBACK_FMT = "Error serializing exception: %s. Original exception: %s: %s"
@@ -734,7 +737,7 @@ def _run(ctx, name, n_extra, n_decode, do_model):
     common.repo_on_path()
     rng = ctx.sub_rng(name)
     cmap = class_map()
-    facts = X._server_facts(__import__("Pyro5.server", fromlist=["x"]))
+    facts = X.facts()      # probed on the real code (c07_probe.py)
     batch_fallback = facts["batchFallback"]
     ctx.count("source:batchFallback=%s" % batch_fallback)
     corpus = corpus_cases()
